@@ -2,6 +2,7 @@ import Gimli.Drv.Util
 import Gimli.Model.Index
 import Gimli.Model.Aranges
 import Gimli.Model.Pub
+import Gimli.Model.Names
 /-! Line-protocol operations for C17 (accelerated lookups and section plumbing). The Rust side
 answering the same lines from the real crate is `harness/src/prop/c17.rs`. A trailing `exp`
 argument (the generator's own expectation, used by the Rust-side oracle only) is ignored here. -/
@@ -54,6 +55,73 @@ def pubItemS : Aranges.Item Pub.Entry → String
   | .item en => s!"{en.dieOffset}:{toHex en.name}:{en.unitHeaderOffset}"
   | .error e => "!" ++ e.name
 
+/-! ### `.debug_names` -/
+
+def itemsS {α} (f : α → String) (xs : List (Aranges.Item α)) : String :=
+  join "," (xs.map fun
+    | .item a => f a
+    | .error x => "!" ++ x.name)
+
+def optS {α} (f : α → String) : Option α → String
+  | some a => f a
+  | none => "~"
+
+def valueS : Names.Value → String
+  | .unsigned v => s!"u{v}"
+  | .offset v => s!"o{v}"
+  | .flag b => if b then "f1" else "f0"
+
+def tuS : Names.TypeUnit → String
+  | .local_ o => s!"L{o}"
+  | .foreign s => s!"F{s}"
+
+def entryHeadS (en : Names.Entry) : String := s!"{en.offset}.{en.abbrevCode}.{en.tag}"
+
+def entryS (e : Endian) (ix : Names.Index) (en : Names.Entry) : String :=
+  let attrs := join "+" (en.attrs.map fun a => s!"{a.name}.{a.form}.{valueS a.value}")
+  let par := en.parent
+  let parS := outS (fun
+    | none => "~"
+    | some none => "N"
+    | some (some (o : Nat)) => toString o) par
+  let chain := match par with
+    | .ok (some (some off)) => ">" ++ outS entryHeadS (ix.nameEntry e off)
+    | _ => ""
+  s!"{entryHeadS en}({attrs})cu={outS (optS toString) (en.compileUnit e ix)}/tu={outS (optS tuS) (en.typeUnit e ix)}" ++
+    s!"/die={outS (optS toString) en.dieOffset}/par={parS}{chain}/th={outS (optS toString) en.typeHash}"
+
+def rangeList (n : Nat) : List Nat := List.range n
+
+def indexS (e : Endian) (ix : Names.Index) (debugStr : Bytes) (hashes : List Nat) (oob : Bool) : String :=
+  let x := if oob then 1 else 0
+  let cu := join "," ((rangeList (ix.cuCount + x)).map fun i => outS toString (ix.compileUnit e i))
+  let ltu := join "," ((rangeList (ix.localTuCount + x)).map fun i => outS toString (ix.localTypeUnit e i))
+  let ftu := join "," ((rangeList (ix.foreignTuCount + x)).map fun i => outS toString (ix.foreignTypeUnit e i))
+  let tu := join "," ((rangeList (ix.localTuCount + ix.foreignTuCount + x)).map fun i => outS tuS (ix.typeUnit e i))
+  let ab := join "," (ix.abbrevs.map fun a =>
+    s!"{a.code}:{a.tag}:" ++ join "+" (a.attrs.map fun (n, f) => s!"{n}.{f}"))
+  let bk := join ";" ((rangeList (ix.bucketCount + x)).map fun b =>
+    outS (optS (itemsS fun (i, h) => s!"{i}.{h}")) (ix.bucket e b))
+  let nm := join ";" ((rangeList (ix.nameCount + x)).map fun i =>
+    let so := ix.nameStringOffset e i
+    let str := match so with
+      | .ok o => outS toHex (Names.getStr debugStr o)
+      | _ => "!"
+    s!"{outS toString so}:{str}:E[" ++ outS (itemsS (entryS e ix)) (ix.nameEntries e i) ++ "]")
+  let hq := join ";" (hashes.map fun h => s!"{h}>" ++ outS (itemsS toString) (ix.findByHash e h))
+  s!"CU={cu}|LTU={ltu}|FTU={ftu}|TU={tu}|AB={ab}|BK={bk}|NM={nm}|HQ={hq}"
+
+def nameHeaderS (e : Endian) (debugStr : Bytes) (hashes : List Nat) (oob : Bool) :
+    Aranges.Item (Nat × Names.Header) → String
+  | .item (off, h) =>
+    let aug := match h.augmentation with
+      | some a => toHex a
+      | none => "~"
+    s!"I{off}:{fmtS h.format}:{h.length}:{h.version}:{h.cuCount}:{h.localTuCount}:{h.foreignTuCount}:" ++
+      s!"{h.bucketCount}:{h.nameCount}:{h.abbrevTableSize}:{aug}|" ++
+      outS (fun ix => indexS e ix debugStr hashes oob) (Names.Index.new h)
+  | .error x => "!" ++ x.name
+
 def handle (op : String) (args : List String) : Option String :=
   match op, args with
   | "ix-parse", [e, h] => do
@@ -78,6 +146,20 @@ def handle (op : String) (args : List String) : Option String :=
   | "pub", [_, e, h, _] => do
       let e ← endian? e; let bs ← parseHex h
       pure ("ok " ++ join "," ((Pub.items e (bs.length + 2) (Pub.start bs)).map pubItemS))
+  | "nm", [e, h, str, hashes, _] => do
+      let e ← endian? e; let bs ← parseHex h; let str ← parseHex str; let hashes ← natList? hashes
+      pure ("ok " ++ join "#" ((Names.headers e (bs.length + 2) bs 0).map (nameHeaderS e str hashes false)))
+  | "nm-oob", [e, h, str, hashes, _] => do
+      let e ← endian? e; let bs ← parseHex h; let str ← parseHex str; let hashes ← natList? hashes
+      pure ("ok " ++ join "#" ((Names.headers e (bs.length + 2) bs 0).map (nameHeaderS e str hashes true)))
+  | "djb-ascii", [h] => do
+      let bs ← parseHex h
+      -- `case_folding_djb_hash` restricted to ASCII input (`to_ascii_lowercase`, then `hash*33 + byte`)
+      if bs.all (fun b => b.toNat < 128) then
+        pure ("ok " ++ toString (bs.foldl (fun hsh b =>
+          let c := if 65 ≤ b.toNat ∧ b.toNat ≤ 90 then b.toNat + 32 else b.toNat
+          (hsh * 33 + c) % 2 ^ 32) 5381))
+      else none
   | _, _ => none
 
 end Gimli.Drv.C17
